@@ -65,7 +65,12 @@ class Formatter:
 
     _FORMAT_RE: re.Pattern[str] = re.compile(_TOKENS)
 
-    _FROM_FORMAT_RE: re.Pattern[str] = re.compile(r"(?<!\\\[)" + _TOKENS + r"(?!\\\])")
+    # The pattern is applied to the regex-escaped format: a literal written
+    # as [text] appears there as \\[text\\] and is matched as a whole, so that
+    # the letters inside it are not mistaken for tokens.
+    _FROM_FORMAT_RE: re.Pattern[str] = re.compile(
+        r"\\\[[^\[]*\\\]|(?<!\\\[)" + _TOKENS + r"(?!\\\])"
+    )
 
     _LOCALIZABLE_TOKENS: ClassVar[
         dict[str, str | Callable[[Locale], Sequence[str]] | None]
@@ -664,7 +669,10 @@ class Formatter:
             raise ValueError("Invalid date")
 
     def _replace_tokens(self, token: str, locale: Locale) -> str:
-        if token.startswith("[") and token.endswith("]"):
+        if token.startswith("\\[") and token.endswith("\\]") and len(token) > 4:
+            # Escaped literal (already regex-escaped)
+            return token[2:-2]
+        elif token.startswith("[") and token.endswith("]"):
             return token[1:-1]
         elif token.startswith("\\"):
             if len(token) == 2 and token[1] in {"[", "]"}:
